@@ -113,6 +113,29 @@ def ordered_calls(e):
     return out
 
 
+def _blank_test_var(n):
+    """(name, polarity) when n tests `name.strip() == ""` (polarity True) or its negation (False)."""
+    def strip_of(e):
+        if isinstance(e, ast.Call) and isinstance(e.func, ast.Attribute) and e.func.attr == "strip" and not e.args and isinstance(e.func.value, ast.Name):
+            return e.func.value.id
+        return None
+
+    if isinstance(n, ast.Compare) and len(n.ops) == 1 and isinstance(n.comparators[0], ast.Constant) and n.comparators[0].value == "":
+        v = strip_of(n.left)
+        if v is not None and isinstance(n.ops[0], (ast.Eq, ast.NotEq)):
+            return v, isinstance(n.ops[0], ast.Eq)
+    if isinstance(n, ast.UnaryOp) and isinstance(n.op, ast.Not):
+        v = strip_of(n.operand)
+        if v is not None:
+            return v, True
+    return None
+
+
+def _single_next(e, lits):
+    calls = [c for c in ast.walk(e) if isinstance(c, ast.Call) and isinstance(c.func, ast.Name) and c.func.id == "next" and c.args and isinstance(c.args[0], ast.Name) and c.args[0].id in lits]
+    return len(calls) == 1 and len(calls[0].args) == 1
+
+
 class _FuncInfo:
     def __init__(self, f: Func, lits=()):
         # flags: non-parameter locals whose every binding is `name = True/False`
@@ -195,8 +218,69 @@ class _FuncInfo:
                     self.empty_dicts.append(name)
         self.empty_dicts = self.empty_dicts[:2]
         self.flags = self.flags + ["#" + v for v in self.empty_dicts]
+        # restore lists: a local list that only collects consumed lines (L.append(v), v assigned from next(<lit>)) and
+        # is only used to push every one of them back (`for x in reversed(L): <lit>.back(x)`).  For the termination
+        # argument an append then counts as a deferred push-back (-1) and the restoring loop as 0.
+        self.restore_lists = {}
+        line_vars = set()
+        for n in f.own_nodes():
+            if isinstance(n, ast.Assign) and len(n.targets) == 1 and isinstance(n.targets[0], ast.Name) and _single_next(n.value, lits):
+                line_vars.add(n.targets[0].id)
+            elif isinstance(n, ast.For) and isinstance(n.target, ast.Name) and isinstance(n.iter, ast.Name) and n.iter.id in lits:
+                line_vars.add(n.target.id)
+        par_ = {}
+        for n in f.own_nodes():
+            for c_ in ast.iter_child_nodes(n):
+                par_[id(c_)] = n
+        cand_lists = {t.id for n in f.own_nodes() if isinstance(n, ast.Assign) and isinstance(n.value, ast.List) and not n.value.elts for t in n.targets if isinstance(t, ast.Name)}
+        for L in sorted(cand_lists):
+            okl, loops_, napp = True, [], 0
+            for n in f.own_nodes():
+                if not (isinstance(n, ast.Name) and n.id == L):
+                    continue
+                p1 = par_.get(id(n))
+                if isinstance(n.ctx, ast.Store):
+                    if not (isinstance(p1, ast.Assign) and isinstance(p1.value, ast.List) and not p1.value.elts):
+                        okl = False
+                    continue
+                p2 = par_.get(id(p1)) if p1 is not None else None
+                if isinstance(p1, ast.Attribute) and p1.attr == "append" and isinstance(p2, ast.Call) and len(p2.args) == 1 and isinstance(p2.args[0], ast.Name) and p2.args[0].id in line_vars:
+                    napp += 1
+                    continue
+                lp = None
+                if isinstance(p1, ast.For) and p1.iter is n:
+                    lp = p1
+                elif isinstance(p1, ast.Call) and isinstance(p1.func, ast.Name) and p1.func.id == "reversed" and isinstance(p2, ast.For) and p2.iter is p1:
+                    lp = p2
+                if lp is not None and isinstance(lp.target, ast.Name) and len(lp.body) == 1 and not lp.orelse and isinstance(lp.body[0], ast.Expr):
+                    c0 = lp.body[0].value
+                    if isinstance(c0, ast.Call) and isinstance(c0.func, ast.Attribute) and c0.func.attr == "back" and isinstance(c0.func.value, ast.Name) and c0.func.value.id in lits and len(c0.args) == 1 and isinstance(c0.args[0], ast.Name) and c0.args[0].id == lp.target.id:
+                        loops_.append(lp)
+                        continue
+                okl = False
+            if okl and napp and loops_:
+                self.restore_lists[L] = {id(l) for l in loops_}
+        # pseudo flags "~B" / "~P" (blank probe): "~B" = every line consumed so far was tested blank (the record has
+        # not started); "~P" = all but the last consumed line were tested blank and the last one is still untested.
+        # Tracked for the single variable v that receives next(<lit>) and is tested as v.strip() == "".
+        self.blank_var = None
+        tested = set()
+        for n in f.own_nodes():
+            v = _blank_test_var(n)
+            if v is not None:
+                tested.add(v[0])
+        got = set()
+        for n in f.own_nodes():
+            if isinstance(n, ast.Assign) and len(n.targets) == 1 and isinstance(n.targets[0], ast.Name) and _single_next(n.value, lits):
+                got.add(n.targets[0].id)
+            elif isinstance(n, ast.For) and isinstance(n.target, ast.Name) and isinstance(n.iter, ast.Name) and n.iter.id in lits:
+                got.add(n.target.id)
+        both = sorted(tested & got)
+        if len(both) == 1:
+            self.blank_var = both[0]
+            self.flags = self.flags + ["~B", "~P"]
         self.index = {k: i for i, k in enumerate(self.flags)}
-        self.init = tuple(False if k.startswith("@") else None for k in self.flags)
+        self.init = tuple((True if k == "~B" else False) if k.startswith(("@", "~")) else None for k in self.flags)
 
     def keyerror_dicts(self, node):
         """Names d of tracked empty-dict flags read as d[<constant>] inside the expression/statement `node`."""
@@ -325,6 +409,18 @@ class Consumption:
     def refine(self, fi: _FuncInfo, st: State, test, truth: bool) -> State:
         if not fi.flags or not st:
             return st
+        if fi.blank_var is not None:
+            bt = _blank_test_var(test)
+            if bt is not None and bt[0] == fi.blank_var:
+                blank = truth if bt[1] else (not truth)
+                ib, ip = fi.index["~B"], fi.index["~P"]
+                out = State()
+                for k, v in st.items():
+                    if k[ip] is True:
+                        k = k[:ib] + (bool(blank),) + k[ib + 1:]
+                        k = k[:ip] + (False,) + k[ip + 1:]
+                    out[k] = min(out[k], v) if k in out else v
+                return out
         if isinstance(test, ast.Name) and test.id in fi.index:
             i = fi.index[test.id]
             out = State()
@@ -347,6 +443,30 @@ class Consumption:
                 want = c.value if pos else (not c.value)
                 return self.refine(fi, st, test.left, want if truth else (not want))
         return st
+
+    def _active_lists(self, fi, rec):
+        """Restore lists whose append/restore pairing is accounted as (-1, 0): all of them when StopIteration sources
+        are being recorded (sources inside the collecting loop are corrected by +1, see record_expr), otherwise the
+        ones whose restoring loop lies inside the cycle under analysis."""
+        if rec is not None:
+            return fi.restore_lists.keys()
+        return getattr(self, "_refund_active", ())
+
+    def blank_consume(self, fi, st: State, tracked: bool) -> State:
+        """A line was consumed (tracked: into the blank-probe variable) or something else moved the position."""
+        if fi.blank_var is None or not st:
+            return st
+        ib, ip = fi.index["~B"], fi.index["~P"]
+        out = State()
+        for k, v in st.items():
+            if tracked and k[ib] is True:
+                nb, np_ = False, True
+            else:
+                nb, np_ = False, False
+            k = k[:ib] + (nb,) + k[ib + 1:]
+            k = k[:ip] + (np_,) + k[ip + 1:]
+            out[k] = min(out[k], v) if k in out else v
+        return out
 
     def assign_flag(self, fi, st: State, name, val: bool) -> State:
         i = fi.index[name]
@@ -442,6 +562,21 @@ class Consumption:
         if rec is None or e is None or not st:
             return
         base = st.minval()
+        fi_ = self.finfo(f)
+        if fi_.blank_var is not None:
+            ib = fi_.index["~B"]
+            base = min((0 if (k[ib] is True and v > 0) else v) for k, v in st.items())
+        if fi_.restore_lists and base is not None:
+            # inside a loop that appends to a restore list at least one consumed line is still owed
+            pm_ = self.prog.parents(f)
+            cur = e
+            inloop = False
+            while id(cur) in pm_:
+                cur = pm_[id(cur)]
+                if isinstance(cur, (ast.For, ast.While)) and any(isinstance(x, ast.Call) and isinstance(x.func, ast.Attribute) and x.func.attr == "append" and isinstance(x.func.value, ast.Name) and x.func.value.id in fi_.restore_lists for x in ast.walk(cur)):
+                    inloop = True
+            if inloop and not (fi_.blank_var is not None and all(k[fi_.index["~B"]] is True for k in st)):
+                base = base + 1
         run = 0
         for call in ordered_calls(e):
             fn = call.func
@@ -484,6 +619,11 @@ class Consumption:
                     self.record_expr(f, ch, st.shifted(c), lits, rec)
                     c = _addi(c, self.expr_cost(f, ch, lits))
             st = st.shifted(c)
+            if fi.restore_lists and T is ast.Expr and isinstance(s.value, ast.Call) and isinstance(s.value.func, ast.Attribute) and s.value.func.attr == "append" and isinstance(s.value.func.value, ast.Name) and s.value.func.value.id in self._active_lists(fi, rec):
+                st = st.shifted(-1)
+            if fi.blank_var is not None and c != 0:
+                tracked = T is ast.Assign and len(s.targets) == 1 and isinstance(s.targets[0], ast.Name) and s.targets[0].id == fi.blank_var and _single_next(s.value, lits) and c == 1
+                st = self.blank_consume(fi, st, tracked)
             if fi.empty_dicts:
                 for d in fi.keyerror_dicts(s):
                     # d[<constant>] on an empty dict raises KeyError: those paths end here
@@ -543,6 +683,8 @@ class Consumption:
 
     def _loop(self, f, fi, s, st, ex, pv, lits, rec=None):
         T = type(s)
+        if T is ast.For and any(id(s) in fi.restore_lists.get(L, ()) for L in self._active_lists(fi, rec)):
+            return st
         if T is ast.While:
             self.record_expr(f, s.test, st, lits, rec)
             itercost = self.expr_cost(f, s.test, lits)
@@ -558,6 +700,9 @@ class Consumption:
         body_ex = Exits()
         for it in range(8):
             start = head.shifted(itercost)
+            if fi.blank_var is not None and itercost != 0:
+                tracked = T is not ast.While and isinstance(s.target, ast.Name) and s.target.id == fi.blank_var and itercost == 1
+                start = self.blank_consume(fi, start, tracked)
             if T is ast.While:
                 start = self.refine(fi, start, s.test, True)
             elif fi.bound_vars:
@@ -651,6 +796,14 @@ class Consumption:
         strictly advance a variable of the loop test.  None = no such path."""
         lits = self.lit_names(f) if lits is None else lits
         fi = self.finfo(f)
+        inside = {id(x) for x in ast.walk(loop)}
+        self._refund_active = {L for L, ids in fi.restore_lists.items() if ids <= inside}
+        try:
+            return self._cycle_min(f, loop, lits, fi)
+        finally:
+            self._refund_active = set()
+
+    def _cycle_min(self, f, loop, lits, fi):
         test_vars = frozenset(names_in(loop.test) & f.locals) if isinstance(loop, ast.While) else frozenset()
         itercost = self.expr_cost(f, loop.test, lits) if isinstance(loop, ast.While) else (1 if (isinstance(loop.iter, ast.Name) and loop.iter.id in lits) else 0)
         start = State({fi.init: itercost})
